@@ -1917,3 +1917,16 @@ func CallsVia(fn *ssa.Function, set FuncSet, depth int) []Via {
 	}
 	return out
 }
+
+// ErrIndexOfCall returns the index of the error result of the call's
+// signature (the last result when it has type error), -1 otherwise.
+func ErrIndexOfCall(call ssa.CallInstruction) int {
+	res := call.Common().Signature().Results()
+	if res.Len() == 0 {
+		return -1
+	}
+	if types.Identical(res.At(res.Len()-1).Type(), errorType) {
+		return res.Len() - 1
+	}
+	return -1
+}
